@@ -7,3 +7,5 @@ void _ZSt28__throw_bad_array_new_lengthv(void){ vll_fatal_ok = 0; vll_abort(); }
 void _ZSt17__throw_bad_allocv(void){ vll_fatal_ok = 0; vll_abort(); }
 void _ZSt25__throw_bad_function_callv(void){ vll_fatal_ok = 0; vll_abort(); }
 void _ZSt16__throw_bad_castv(void){ vll_fatal_ok = 0; vll_abort(); }
+const char* _ZNKSt9bad_alloc4whatEv(void* self){ return "std::bad_alloc"; }
+const char* _ZNKSt9exception4whatEv(void* self){ return "std::exception"; }
